@@ -260,6 +260,102 @@ Theorem C07_usage_from_rule24 :
 Proof. exact rule24_gives_usage. Qed.
 Print Assumptions C07_usage_from_rule24.
 
+(* ---- composition with the validation model of C05/C06 (read-only imports;
+   V = Valid.ValidSchema, R = Valid.ValidRules, VS/VL/VT = their Spec files,
+   VP.op_key_list, VO.validate_rules: see Proofs/CoerceValidBridge.v) ---- *)
+
+(* (1) the input-type fragment of a CoerceModel schema as a ValidSchema
+   schema: total translation, type lookups agree, and Schema.is_subtype on
+   translated types is exactly the covariance [sub] of the C07 spec *)
+Theorem C07_valid_schema_of_agree : forall s outs q m sb dirs,
+  schema_agree s (valid_schema_of s outs q m sb dirs).
+Proof. exact valid_schema_of_agree. Qed.
+Print Assumptions C07_valid_schema_of_agree.
+
+Theorem C07_subtype_agree : forall s s' a b,
+  schema_agree s s' -> usable s b ->
+  (V.is_subtype s' (tref_of a) (tref_of b) = true <-> sub a b).
+Proof.
+  intros s s' a b Ha Hu. split; [apply (subtype_agree s s' a b Ha Hu)|apply sub_subtype].
+Qed.
+Print Assumptions C07_subtype_agree.
+
+(* (2) VariablesInAllowedPosition silent on the document (C06 model, via
+   C06_rule_equiv_VariablesInAllowedPosition) gives usage_ok for every field
+   node of an operation -- in its own body or in a reachable fragment --,
+   variables directly in argument position, in list items and in input-object
+   fields at any depth *)
+Theorem C07_usage_ok_from_validation :
+  forall s s' d op p a n args dirs sl sb l f defs,
+  schema_agree s s' -> schema_closed s -> schema_inputs s -> fields_unique s ->
+  NoDup (VP.op_key_list d) -> VL.spec_unique_variable_names d -> VL.spec_known_directives s' d ->
+  VT.wf_var_types s' d ->
+  R.r24_variables_in_allowed_position s' d = Ok [] ->
+  In op (doc_defs d) -> VS.is_operation op ->
+  node_in_operation s' d op p (SField a n args dirs sl sb l) ->
+  V.get_field_def s' p (n_val n) = Some f ->
+  V.sf_args f = map sarg_of defs -> NoDup (map f_name defs) ->
+  (forall d0, In d0 defs -> usable s (f_ty d0)) ->
+  (forall vd, In vd (VL.op_vars op) -> V.type_from_ast s' (vd_type vd) <> None) ->
+  usage_ok s (VL.op_vars op) defs args.
+Proof. exact usage_ok_from_validation. Qed.
+Print Assumptions C07_usage_ok_from_validation.
+
+(* (3) a validated request: no usage_ok hypothesis left. Whatever kwargs
+   exec_kwargs hands to the resolver of a field node of the operation conform. *)
+Theorem C07_validated_request_sound :
+  forall s s' d op p a n args dirs sl sb l f defs raw kw,
+  schema_agree s s' -> schema_wf s -> schema_closed s -> fields_unique s ->
+  NoDup (VP.op_key_list d) -> VL.spec_unique_variable_names d -> VL.spec_known_directives s' d ->
+  VT.wf_var_types s' d ->
+  R.r24_variables_in_allowed_position s' d = Ok [] ->
+  In op (doc_defs d) -> VS.is_operation op ->
+  node_in_operation s' d op p (SField a n args dirs sl sb l) ->
+  V.get_field_def s' p (n_val n) = Some f ->
+  V.sf_args f = map sarg_of defs -> NoDup (map f_name defs) ->
+  args_wf s defs -> (forall d0, In d0 defs -> bound s (f_ty d0)) ->
+  exec_kwargs s defs (VL.op_vars op) args raw = Ok kw ->
+  NoDup (map fst kw)
+  /\ forall k v, In (k, v) kw -> exists d0, In d0 defs /\ f_py d0 = k /\ conforms s (f_ty d0) v.
+Proof. exact validated_request_sound. Qed.
+Print Assumptions C07_validated_request_sound.
+
+(* ... and from the verdict of the 25 rules (C06_verdict_25): uniqueness and
+   known-directive side conditions are then part of the verdict *)
+Theorem C07_validated25_request_sound :
+  forall fuel s s' d op p a n args dirs sl sb l f defs raw kw,
+  schema_agree s s' -> schema_wf s -> schema_closed s -> fields_unique s ->
+  VV.wf_inputs s' -> VT.wf_arg_types s' -> VT.wf_var_types s' d ->
+  VO.validate_rules fuel s' d VO.rules_but_overlap = Ok [] ->
+  In op (doc_defs d) -> VS.is_operation op ->
+  node_in_operation s' d op p (SField a n args dirs sl sb l) ->
+  V.get_field_def s' p (n_val n) = Some f ->
+  V.sf_args f = map sarg_of defs -> NoDup (map f_name defs) ->
+  args_wf s defs -> (forall d0, In d0 defs -> bound s (f_ty d0)) ->
+  exec_kwargs s defs (VL.op_vars op) args raw = Ok kw ->
+  NoDup (map fst kw)
+  /\ forall k v, In (k, v) kw -> exists d0, In d0 defs /\ f_py d0 = k /\ conforms s (f_ty d0) v.
+Proof. exact validated25_request_sound. Qed.
+Print Assumptions C07_validated25_request_sound.
+
+(* usage_ok is satisfiable by the ordinary cases: a list variable for a list
+   argument, a stricter variable inside an object literal *)
+Local Open Scope string_scope.
+Example C07_usage_ok_example :
+  let S0 x := str_of_string x in
+  let nm0 x := Name (S0 x) None in
+  let s := [ (S0 "Int", TDScalar KInt);
+             (S0 "P", TDInput [IField (S0 "x") (S0 "x") (INamed false (S0 "Int")) None]) ] in
+  let vds := [ VarDef (nm0 "v") None (TList (TNonNull (TNamed (nm0 "Int") None) None) None) None [] None;
+               VarDef (nm0 "w") None (TNonNull (TNamed (nm0 "Int") None) None) None [] None ] in
+  let defs := [ IField (S0 "xs") (S0 "xs") (IList false (INamed false (S0 "Int"))) None;
+                IField (S0 "p") (S0 "p") (INamed true (S0 "P")) None ] in
+  let call := [ Arg (nm0 "xs") (VVar (nm0 "v") None) None;
+                Arg (nm0 "p") (VObject [(nm0 "x", VVar (nm0 "w") None, None)] None) None ] in
+  usage_ok s vds defs call.
+Proof. exact usage_ok_example. Qed.
+Print Assumptions C07_usage_ok_example.
+
 (* ---- non-vacuity: a recursive input type with defaults ---- *)
 Local Open Scope string_scope.
 Definition S' (x : string) : str := str_of_string x.
